@@ -20,8 +20,9 @@ FAMILY_OK = {
     "SetNode": {"builtin_container"}, "TupleNode": {"builtin_container"}, "BytesNode": {"builtin_container"},
     "BytearrayNode": {"builtin_container"}, "SliceNode": {"builtin_container"}, "JsonNode": {"builtin_primitive"},
 }
-# kinds whose (module, class) slot is neither audited nor resolved: the name is dead text
-NAME_IGNORED = {"JsonNode", "SliceNode"}
+# kinds whose (module, class) slot is neither audited nor resolved: the name is dead text.  SliceNode used to be one of
+# them (finding D31-SliceNode, repaired in /repo: SliceNode.get_unsafe_set now reports the type the header names)
+NAME_IGNORED = {"JsonNode"}
 
 
 def one_node(loader, proto, mod, cls, slot="name"):
@@ -40,7 +41,8 @@ def run(R, only_cases=None):
     R.trusted_base += ["Coq 8.16.1 kernel + vm_compute", "harness/snapshot.py (defaults per class, probed behaviourally) and harness/families.py (tagging oracle: isinstance/issubclass on the resolved object)",
                        "correspondence: harness/impl_io.py (modes universe, inspect)"]
     R.assumptions += ["family tags of names are computed by resolving them with importlib/getattr (never calling them)",
-                      "JsonNode and SliceNode ignore their (module, class) text entirely (never audited, never resolved): not counted as a name-bearing slot"]
+                      "JsonNode ignores its (module, class) text entirely (never audited, never resolved): not counted as a name-bearing slot; "
+                      "SliceNode audits its (module, class) text (since the D31-SliceNode repair) and never resolves it"]
     if snap is None:
         return
     R.prove("C11")
